@@ -116,7 +116,9 @@ Section Utf7Proofs.
   Variable b64enc : list N -> list N.
   Variable b64dec : list N -> option (list N).
   (** the facts assumed of the base64 layer (RFC 3501 5.1.3 / RFC 2152) *)
-  Hypothesis b64_roundtrip : forall run, run <> [] -> b64dec (b64enc run) = Some run.
+  (** [P]: the code points the base64 layer is required to invert (Unicode scalar values) *)
+  Variable P : N -> Prop.
+  Hypothesis b64_roundtrip : forall run, run <> [] -> Forall P run -> b64dec (b64enc run) = Some run.
   Hypothesis b64_alphabet : forall run c, In c (b64enc run) -> is_mb64 c = true.
   Hypothesis b64_nonempty : forall run, run <> [] -> b64enc run <> [].
 
@@ -137,43 +139,45 @@ Section Utf7Proofs.
       rewrite IH by (intros c0 Hc0; apply H; right; exact Hc0). rewrite <- app_assoc. reflexivity.
   Qed.
 
-  Lemma dec_flush_ne : forall r rest, r <> [] ->
+  Lemma dec_flush_ne : forall r rest, r <> [] -> Forall P r ->
     dec None (([38] ++ b64enc r ++ [45]) ++ rest) = option_map (app r) (dec None rest).
   Proof.
-    intros r rest Hne. cbn [app]. rewrite <- app_assoc. cbn [Model.dec]. change (38 =? 38) with true. cbn iota.
+    intros r rest Hne HP. cbn [app]. rewrite <- app_assoc. cbn [Model.dec]. change (38 =? 38) with true. cbn iota.
     rewrite dec_shift by (intros c Hc; apply mb64_not_dash; apply (b64_alphabet r c Hc)).
     cbn [app Model.dec]. change (45 =? 45) with true. cbn iota.
     destruct (b64enc r) as [|y l] eqn:Eb; [exfalso; exact (b64_nonempty r Hne Eb)|].
-    rewrite <- Eb, (b64_roundtrip r Hne). reflexivity.
+    rewrite <- Eb, (b64_roundtrip r Hne HP). reflexivity.
   Qed.
 
-  Lemma dec_flush : forall run rest,
+  Lemma dec_flush : forall run rest, Forall P run ->
     dec None (flush run ++ rest) = option_map (app run) (dec None rest).
   Proof.
-    intros run rest. destruct run as [|x run].
+    intros run rest HP. destruct run as [|x run].
     - cbn. destruct (dec None rest); reflexivity.
-    - unfold Model.flush. apply dec_flush_ne. discriminate.
+    - unfold Model.flush. apply dec_flush_ne; [discriminate | exact HP].
   Qed.
 
   Lemma valid_char_ascii : forall c, valid_char c = true -> (c =? 38) = false /\ (c <? 128) = true.
   Proof. intros c H. unfold valid_char in H. lia. Qed.
 
-  Lemma enc_dec : forall s run, dec None (enc run s) = Some (run ++ s).
+  Lemma enc_dec : forall s run, Forall P run -> Forall P s -> dec None (enc run s) = Some (run ++ s).
   Proof.
-    induction s as [|c s IH]; intros run.
-    - cbn [Model.enc]. rewrite <- (app_nil_r (flush run)), dec_flush. cbn. reflexivity.
-    - cbn [Model.enc]. destruct (valid_char c) eqn:Ev.
+    induction s as [|c s IH]; intros run Hrun Hs.
+    - cbn [Model.enc]. rewrite <- (app_nil_r (flush run)), dec_flush by exact Hrun. cbn. reflexivity.
+    - inversion Hs as [|? ? Hc Hs']; subst.
+      cbn [Model.enc]. destruct (valid_char c) eqn:Ev.
       + destruct (valid_char_ascii c Ev) as [E1 E2].
-        rewrite dec_flush. cbn [Model.dec]. rewrite E1, E2, IH. cbn. reflexivity.
+        rewrite dec_flush by exact Hrun. cbn [Model.dec]. rewrite E1, E2, IH by (constructor || exact Hs'). cbn. reflexivity.
       + destruct (c =? 38) eqn:E38.
         * apply N.eqb_eq in E38. subst c.
-          rewrite dec_flush. cbn [app Model.dec]. change (38 =? 38) with true. cbn iota.
-          change (45 =? 45) with true. cbn iota. rewrite IH. cbn. reflexivity.
-        * rewrite IH, <- app_assoc. reflexivity.
+          rewrite dec_flush by exact Hrun. cbn [app Model.dec]. change (38 =? 38) with true. cbn iota.
+          change (45 =? 45) with true. cbn iota. rewrite IH by (constructor || exact Hs'). cbn. reflexivity.
+        * rewrite IH, <- app_assoc; [reflexivity | | exact Hs'].
+          apply Forall_app. split; [exact Hrun | constructor; [exact Hc | constructor]].
   Qed.
 
-  Lemma utf7_rt : forall s, utf7_decode b64dec (utf7_encode b64enc s) = Some s.
-  Proof. intros s. unfold utf7_decode, utf7_encode. apply (enc_dec s []). Qed.
+  Lemma utf7_rt : forall s, Forall P s -> utf7_decode b64dec (utf7_encode b64enc s) = Some s.
+  Proof. intros s Hs. unfold utf7_decode, utf7_encode. apply (enc_dec s [] (Forall_nil P) Hs). Qed.
 
   (** RFC 3501 form: printable US-ASCII only; "&" only as "&-" or opening a shift sequence *)
   Definition printable (c : N) : Prop := 32 <= c <= 126.
